@@ -65,6 +65,11 @@ def _rdigest(sim: dict) -> str:
     return h.hexdigest()
 
 
+def fingerprint(r: dict) -> list:
+    v = r.get("violation")
+    return [r["digest"], r["conflict"], r["results_digest"], r["steps"], v["class"] if v else None]
+
+
 def handler(task: dict) -> dict:
     plan = engine.make_plan(task["seed"], task["tier"])
     out = evaluate(plan)
